@@ -324,6 +324,36 @@ func (e *Engine) initIntrinsics() {
 		}
 		return r
 	}
+	I["vp:vpGo"] = func(e *Engine, a []Value, pos token.Pos, fn *ssa.Function) Value {
+		if e.threads == nil {
+			panic(e.unsupported("vpGo outside a thread harness (name it vpHC_...)"))
+		}
+		fv := a[0].(*FuncV)
+		t := e.threads.impl.spawn(e, tb.True, func() { e.callFuncV(fv, nil, pos) }, "vpGo@"+e.posStr(pos))
+		return tb.Int(int64(t.id))
+	}
+	I["vp:vpWait"] = func(e *Engine, a []Value, pos token.Pos, fn *ssa.Function) Value {
+		ti := e.threads.impl
+		th := ti.curThr()
+		th.op = pendingOp{kind: "join"}
+		ti.schedule(th)
+		th.op = pendingOp{}
+		return nil
+	}
+	I["vp:vpThreadDone"] = func(e *Engine, a []Value, pos token.Pos, fn *ssa.Function) Value {
+		i := int(e.constInt(a[0], "thread id"))
+		ti := e.threads.impl
+		return tb.Bool(i < len(ti.threads) && ti.threads[i].status == thrDone)
+	}
+	I["vp:vpYield"] = func(e *Engine, a []Value, pos token.Pos, fn *ssa.Function) Value {
+		if e.threads != nil {
+			ti := e.threads.impl
+			th := ti.curThr()
+			th.op = pendingOp{}
+			ti.schedule(th)
+		}
+		return nil
+	}
 	I["vp:vpNow"] = func(e *Engine, a []Value, pos token.Pos, fn *ssa.Function) Value { return e.clock }
 	I["vp:vpBytes"] = func(e *Engine, a []Value, pos token.Pos, fn *ssa.Function) Value {
 		// vpBytes(tag, n): slice of n fresh symbolic bytes (n concrete)
@@ -586,9 +616,20 @@ func (e *Engine) initIntrinsics() {
 		e.ctxCancel(e.ctxObjOf(a[0]))
 		return nil
 	}
-	I["ctx.stop"] = func(e *Engine, a []Value, pos token.Pos, fn *ssa.Function) Value { return tb.True }
+	I["ctx.stop"] = func(e *Engine, a []Value, pos token.Pos, fn *ssa.Function) Value {
+		if e.threads != nil {
+			if s, ok := a[0].(*StrV); ok {
+				return tb.Bool(e.threads.impl.stop(s.Alts[0].S))
+			}
+		}
+		return tb.True
+	}
 	I["context.AfterFunc"] = func(e *Engine, a []Value, pos token.Pos, fn *ssa.Function) Value {
 		c := e.ctxObjOf(a[0])
+		if e.threads != nil {
+			key := e.threads.impl.afterFunc(e, c, a[1].(*FuncV))
+			return &FuncV{[]FuncAlt{{G: tb.True, Builtin: "ctx.stop", Recv: e.str(key)}}}
+		}
 		c.AfterFns = append(c.AfterFns, a[1])
 		// already cancelled: runs immediately in its own goroutine
 		if already := e.ctxCancelled(c); !already.IsFalse() {
